@@ -16,6 +16,9 @@ def run(ctx):
     scale = 1 if ctx.tier == "quick" else 10
     engine.import_family(ctx, random.Random(ctx.seed + 6), 30 * scale, 0,
                          what="T3 correspondence: promise lifecycle across import files, whole validator vs Coq model (Model/Imports.v)")
+    # ... and across import trees: ancestry that runs through connections of a file reached by two import entries
+    engine.import_tree_family(ctx, random.Random(ctx.seed + 8), 10 * scale, shapes=["diamond", "diamond_plus", "chain3_shortcut", "deep_diamond", None],
+                              what="T3 correspondence: promise lifecycle across import trees, whole validator vs Coq model (Model/ImportsDeep.v)")
 
 
 PROP_FILES = ["C06_ancestry"]
